@@ -25,6 +25,7 @@ import (
 // listener is an observation, not the end of the check.
 // op:   H:<initial nodes> then actions
 //         +          a node joins (listed, started) and the backend announces NEW_NODE
+//         c          a node joins, and the backend goes on announcing changes every half window for 4.5 windows (probe follows at once)
 //         -<i>       node i leaves (delisted, stopped) and the backend announces REMOVED_NODE
 //         s:<ks>     a session for keyspace <ks> is opened ("missing…" does not exist: the session fails to connect)
 //         f          the next topology query (system.peers) of the proxy is answered with an error, once
@@ -148,6 +149,25 @@ func runTopoChild(op string) string {
 				return "addnode-error"
 			}
 			cl.Event(&message.TopologyChangeEvent{ChangeType: primitive.TopologyChangeTypeNewNode, Address: &primitive.Inet{Addr: netIP(ip), Port: int32(port)}})
+		case a == "c":
+			// a node joins, and for the next four and a half refresh windows the backend keeps announcing changes at
+			// intervals of half a window: the refresh that the first announcement asked for must not be put off by them
+			i := len(nodes)
+			ip := ipOf(i)
+			nodes = append(nodes, ip)
+			if _, err := cl.AddNode(ip, "dc1"); err != nil {
+				return "addnode-error"
+			}
+			cl.Event(&message.TopologyChangeEvent{ChangeType: primitive.TopologyChangeTypeNewNode, Address: &primitive.Inet{Addr: netIP(ip), Port: int32(port)}})
+			for j := 0; j < 8; j++ {
+				time.Sleep(window / 2)
+				if j%2 == 0 {
+					cl.Event(&message.StatusChangeEvent{ChangeType: primitive.StatusChangeTypeUp, Address: &primitive.Inet{Addr: netIP(nodes[0]), Port: int32(port)}})
+				} else {
+					cl.Event(&message.TopologyChangeEvent{ChangeType: primitive.TopologyChangeTypeNewNode, Address: &primitive.Inet{Addr: netIP(ip), Port: int32(port)}})
+				}
+			}
+			time.Sleep(window / 2)
 		case strings.HasPrefix(a, "-"):
 			var i int
 			fmt.Sscan(a[1:], &i)
@@ -238,6 +258,9 @@ func genTopo(e *emitter, r *rng.R, n int, tier string) {
 		"H:3 p f -1 w p + w p",
 		"H:3 p -1 x w p + w p -2 w p",
 		"H:2 p + + x w p -1 w p + w p",
+		"H:2 p c p",
+		"H:3 p c p -1 w p c p",
+		"H:1 c p x w p",
 	}
 	defer func() { e.emitAll(ops, 8) }()
 	for i := 0; i < n; i++ {
@@ -265,6 +288,9 @@ func genTopo(e *emitter, r *rng.R, n int, tier string) {
 				parts = append(parts, "f", "+", "w", "p")
 			case c < 6:
 				parts = append(parts, "s:"+rr.Pick([]string{"app", "missing", "other", "missing2"}))
+			case c < 7 && total < 5 && rr.Intn(2) == 0:
+				total++
+				parts = append(parts, "c", "p")
 			case c < 8:
 				parts = append(parts, "x", "w", "p")
 			default:
